@@ -208,20 +208,43 @@ def path_case(draw):
                                 "keep_threshold": draw(st.sampled_from([0.9, 0.5, 1.0]))}}
 
 
+@st.composite
+def mlp_slow_path_case(draw):
+    """slow paths (multiplier 1.03-1.1) of the sparse MLP models with small batches and sizeable steps: features that were
+    discarded at the step kept as 'best' come back to life later on, then the best weights are restored"""
+    cls = draw(st.sampled_from(["SparseMLPMMD", "SparseMLPModel"]))
+    s = draw(E.est_spec(classes=[cls], n_max=24, d_max=6, iter_max=2, k_max=3, hidden_max=4, lr=(0.08, 0.1, 0.2), d_min=4, n_min=12,
+                        gem_names=["mmd_ova", "mi", "mmd_ovo"], allow_instance=False, kernel_forms=("named",), xkinds=("normal", "blobs")))
+    s["dynamic"] = False
+    s["groups"] = None
+    s.pop("gcont", None)
+    s["batch_size"] = draw(st.sampled_from([6, 4, 8]))
+    s["alpha"] = draw(st.sampled_from([0.05, 0.1, 0.02]))
+    s["M"] = draw(st.sampled_from([10.0, 1.0, 100.0]))
+    return {"spec": s, "path": {"alpha_multiplier": draw(st.sampled_from([1.05, 1.03, 1.1])), "min_features": draw(st.integers(1, 2)),
+                                "max_patience": draw(st.integers(1, 3)), "restore_best_weights": True,
+                                "keep_threshold": draw(st.sampled_from([0.9, 0.8, 0.95]))},
+            "light": True}  # hundreds of steps: the model is examined at the end of the path only
+
+
 def oracle_path(case):
     s = case["spec"]
     label = E.label(s) + f".path({case['path']})"
     X = E.build_data(s)
     est, y = E.build(s, X)
     w = Watcher(est, s, X, label)
+    import contextlib
+    if case.get("light"):
+        est._update_weights = w_orig_update(est)  # no per-step observation on paths of tens of thousands of steps
 
     def on_val(clf, Xv, yv, bs, res):
-        if hasattr(clf, "optimiser_"):
+        if hasattr(clf, "optimiser_") and not case.get("light"):
             w.history_point("path step")
 
     with warnings.catch_warnings():
         warnings.simplefilter("ignore")
-        with np.errstate(all="ignore"), optimiser_spy(after=w.after_opt), val_score_spy(on_val):
+        with np.errstate(all="ignore"), (contextlib.nullcontext() if case.get("light") else optimiser_spy(after=w.after_opt)), \
+                (contextlib.nullcontext() if case.get("light") else val_score_spy(on_val)):
             try:
                 out = est.path(X, y, **case["path"])
             except Violation:
@@ -230,11 +253,19 @@ def oracle_path(case):
                 return {"nontrivial": bool(w.stats["mixed_points"]), "classes": [s["cls"] + ":path_raised"],
                         "counts": {**w.stats, "path_raised": 1}, "note": f"{type(e).__name__}: {e}"}
         w.history_point("after path")
+        if case["path"].get("restore_best_weights") and not s.get("dynamic"):
+            # after restoration the estimator is the returned best model, array by array
+            bw = out[0]
+            now = est._get_weights()
+            if len(bw) != len(now) or any(not np.array_equal(a, b) for a, b in zip(bw, now)):
+                bad = [i for i, (a, b) in enumerate(zip(bw, now)) if not np.array_equal(a, b)]
+                raise Violation(f"{label}: after restoration the estimator's weight arrays {bad} differ from the returned best weights")
     return {"nontrivial": bool(w.stats["mixed_points"]),
             "classes": [s["cls"] + (":dynamic" if s.get("dynamic") else ""), "restore:" + str(case["path"]["restore_best_weights"])],
             "counts": w.stats}
 
 
 def subs():
-    return [Sub("fit", fit_case(), oracle_fit, 600, 15000, "fits of the sparse estimators"),
+    return [Sub("path_mlp_slow", mlp_slow_path_case(), oracle_path, 40, 1500, "slow restored paths of the sparse MLP models (features die and revive)"),
+            Sub("fit", fit_case(), oracle_fit, 600, 15000, "fits of the sparse estimators"),
             Sub("path", path_case(), oracle_path, 300, 6000, "paths of the sparse estimators")]
